@@ -396,6 +396,14 @@ def thin_mesh(rng, which, n=(2, 2)):
     return mixedgen.layered(n[0], n[1], 1, 1, COLS[which], lengths=(1.0, 1.0, zi + eps), zi=zi), zi
 
 
+def island_mesh(rng, n=None):
+    """a tet box and, apart from it, a block of hexahedra: hexes and quads but no pyramid / prism, so the cavity
+    operators are not gated and run next to frozen cells"""
+    n = n or rng.choice([(2, 2, 2), (2, 2, 1), (3, 2, 2)])
+    verts, cells = mixedgen.layered(n[0], n[1], 0, n[2], COLS['b'], zi=0.0, rng=rng, jitter=rng.choice([0.0, 0.3]))
+    return mixedgen.with_hex_island(verts, cells, n=rng.choice([(1, 1, 1), (2, 1, 1)]))
+
+
 def touches(C, v, kinds):
     return any(v in c[0] for k in kinds for c in C[k])
 
@@ -499,6 +507,10 @@ def gen_run(rng, tier):
             (verts, cells), zi = small_mesh(rng, which, n=(3, 3, 1, 3))
             ops.append(run_op(rng.choice(['a', 'cc', 'cwcm']), rng.choice([0, 1]), rng.uniform(0.9, 1.6), 0.0, zi, 2.0,
                               verts, cells))
+        # hexes and quads but no pyramid / prism: the cavity operators (swap pass, collapse / split by cavity) are not gated
+        verts, cells = island_mesh(rng)
+        ops.append(run_op(rng.choice(['a', 'aw', 'wa']), rng.choice([0, 1]), rng.uniform(0.2, 0.35), 0.0, 0.0, 1.0, verts, cells))
+        ops.append(run_op('a', 0, rng.uniform(0.8, 1.2), 0.0, 0.0, 2.0, *island_mesh(rng, (3, 3, 3))))
     ops += ['run a 0 0 0 0 0 0', 'bogus', run_op('a', 0, 0.0, 0.0, 0.0, 1.0, [[0, 0, 0]], {})]
     return ops
 
